@@ -14,7 +14,84 @@ OBLIGATIONS = [
     "c09_spec_decoder", "c09_spec_decoder_oob", "c09_spec_decoder_parity",
     "c09_fec_ids", "c09_fec_ids_distinct", "c09_slots_distinct", "c09_oob_ids", "c09_parity_ids_consumed", "c09_parity_is_rs",
     "c09_fresh_nonce_each", "c09_distinct", "c09_orbit",
+    "c09_rng_key_exposure", "c09_rng_reseed_exact", "c09_rng_epoch_orbit", "c09_rng_epoch_nonces_distinct",
 ]
+
+
+def _bytes(h):
+    return "[]" if h in ("-", "") else "[" + ";".join(str(b) for b in bytes.fromhex(h)) + "]"
+
+
+def entropy_part(ctx):
+    """entropy.go's rngAES (toy cipher.Block, scripted crypto/rand, counters around the reseed boundary)
+    replayed in coq/frame/Entropy.v by vm_compute; a mismatch = the correspondence no longer checks."""
+    import os
+    import re
+    rep, _ = V.harness_report(ctx, "^TestVerifC09Entropy$", "C09ent.report.json", files=["entropy_test.go"])
+    V.merge_report(ctx, rep)
+    logp = os.path.join(ctx.dir, "Entropy.log")
+    if rep is None or not os.path.exists(logp):
+        return
+    cases = []
+    for line in open(logp):
+        if not line.startswith("CASE "):
+            continue
+        kv = dict(t.split("=", 1) for t in line.split()[1:])
+        ops = "[" + ";".join("(%s, %s)" % ("true" if o[0] == "F" else "false", o[1:]) for o in kv["ops"].split(",")) + "]"
+        outs = "[" + ";".join(_bytes(h) for h in kv["outs"].split(",")) + "]"
+        fresh = "[" + ";".join(_bytes(f.split(":")[1]) for f in kv["fresh"].split(",")) + "]"
+        tbl = "[" + ";".join("(%s, %s, %s)" % (t.split(":")[0], _bytes(t.split(":")[1]), _bytes(t.split(":")[2])) for t in kv["aes"].split(",")) + "]"
+        cases.append("(%s, %s, %s, %s, %s, (%s, %s, %s), %s, %s)" % (kv["k"], kv["count0"], _bytes(kv["seed0"]), ops, outs,
+                                                                     kv["count1"], _bytes(kv["seed1"]), kv["reseeds"], fresh, tbl))
+    src = r"""From Coq Require Import ZArith List Bool.
+From KV.Frame Require Import Entropy.
+Import ListNotations.
+Local Open Scope Z_scope.
+Definition eqb_bytes (a b : list Z) : bool := if list_eq_dec Z.eq_dec a b then true else false.
+(* keys: k >= 0 = the toy block with constant k; -(e+1) = AES under the e-th scripted key, given as a table *)
+Fixpoint lookup (e : Z) (s : list Z) (t : list (Z * list Z * list Z)) : list Z :=
+  match t with [] => [] | (e', i, o) :: r => if Z.eqb e e' && eqb_bytes s i then o else lookup e s r end.
+Definition E_of (t : list (Z * list Z * list Z)) (k : Z) (s : list Z) : list Z :=
+  if 0 <=? k then toy_E k s else lookup (- k - 1) s t.
+Definition fresh_of (f : list (list Z)) (i : nat) : Z * list Z := (- Z.of_nat i - 1, nth i f []).
+Fixpoint run (E : Z -> list Z -> list Z) (fr : nat -> Z * list Z) (ops : list (bool * Z)) (r : rng Z) : rng Z * list (list Z) :=
+  match ops with
+  | [] => (r, [])
+  | (isfill, n) :: t =>
+    let '(r1, o) := if isfill : bool then fill_rand Z E fr 100 n r else rng_read Z E fr n r in
+    let '(r2, os) := run E fr t r1 in (r2, o :: os)
+  end.
+Definition chk (c : Z * Z * list Z * list (bool * Z) * list (list Z) * (Z * list Z * Z) * list (list Z) * list (Z * list Z * list Z)) : bool :=
+  match c with (k, c0, s0, ops, outs, (c1, s1, rs), fr, t) =>
+    let '(r, o) := run (E_of t) (fresh_of fr) ops (mkRng 0%nat k s0 c0 0) in
+    (if list_eq_dec (list_eq_dec Z.eq_dec) o outs then true else false) && Z.eqb (r_count r) c1 && eqb_bytes (r_seed r) s1
+    && Z.eqb (Z.of_nat (r_epoch r)) rs end.
+Fixpoint bad {A} (f : A -> bool) (i : nat) (l : list A) : list nat :=
+  match l with [] => [] | x :: t => if f x then bad f (S i) t else i :: bad f (S i) t end.
+Definition ent_cases := [
+""" + ";\n".join(cases).replace("\\n", "\n") + r"""
+].
+Definition ENTBAD := Eval vm_compute in bad chk 0 ent_cases.
+Print ENTBAD.
+"""
+    vf = os.path.join(ctx.dir, "EntCases.v")
+    open(vf, "w").write(src)
+    with V.Lock("coq-frame"):
+        rc, o = V.sh(["coqc"] + V.coq_flags("frame") + ["-Q", ctx.dir, "KV.EntObs", vf], cwd=ctx.dir, timeout=900)
+    if rc != 0:
+        ctx.broke("entropy: the replay file did not compile (model interface changed?)", V.tail_err(o))
+        return
+    m = re.search(r"ENTBAD = \[(.*?)\]", " ".join(o.split()))
+    if m is None:
+        ctx.broke("entropy: no verdict from the model replay", o[-2000:])
+        return
+    badl = [x.strip() for x in m.group(1).split(";") if x.strip()]
+    if badl:
+        ctx.broke("correspondence: entropy.go rngAES vs coq/frame/Entropy.v - the Coq model and the implementation differ on %d of %d cases "
+                  "(cases %s of Entropy.log)" % (len(badl), len(cases), badl[:8]))
+    ctx.coverage["traces_validated_against_impl"] = ctx.coverage.get("traces_validated_against_impl", 0) + len(cases)
+    ctx.coverage.setdefault("model_replay", []).append({"cases": len(cases), "mismatches": len(badl),
+                                                        "what": "entropy.go rngAES.Read / fillRand vs coq/frame/Entropy.v, evaluated by vm_compute"})
 
 
 def run(ctx):
@@ -25,6 +102,7 @@ def run(ctx):
                             "independent Go decoder's reading; pp_step regenerates every emission sequence byte for byte; "
                             "fec_encode/encode_oob = the real fecEncoder)")
     V.merge_report(ctx, rep, summ)
+    entropy_part(ctx)
     U.io_part(ctx)
     U.run_parts(ctx, ["tx"])
     if ctx.broken and not ctx.violations and ctx.quick():
